@@ -101,6 +101,18 @@ func newTagProg(id string, r *rand.Rand, coverFrom int, _ bool) *tagGen {
 	kindsA := kinds(func(b both) *Decl { return b.a })
 	kindsB := kinds(func(b both) *Decl { return b.b })
 
+	// unexported struct types with tagged exported fields: embedded, their fields are promoted by encoding/json
+	stamps := add("timestamps", DStruct, "other.go")
+	metaS := add("metaInfo", DStruct, "other.go")
+	for _, d := range []*Decl{stamps.a, stamps.b} {
+		d.Fields = []*Field{{Name: "CreatedAt", Type: Basic("string"), Tag: `json:"created_at"`}, {Name: "UpdatedAt", Type: Basic("int")}}
+	}
+	audit := add("auditTrail", DStruct, "other.go")
+	for _, d := range []*Decl{audit.a, audit.b} {
+		d.Fields = []*Field{{Name: "AuditBy", Type: Basic("string"), Tag: `json:"audit_by"`}, {Name: "AuditAt", Type: Basic("int")}}
+	}
+	metaS.a.Fields = []*Field{{Name: "Owner", Type: Basic("string")}, {Embedded: true, Type: Ref(audit.a)}}
+	metaS.b.Fields = []*Field{{Name: "Owner", Type: Basic("string")}, {Embedded: true, Type: Ref(audit.b)}}
 	nStructs := 5 + r.Intn(3)
 	holderA := &Decl{Name: "Holder", Pkg: root, File: "models.go", Kind: DStruct, Fields: []*Field{{Name: "Id", Type: Basic("int64")}}}
 	holderB := &Decl{Name: "Holder", Pkg: twRoot, File: "models.go", Kind: DStruct, Fields: []*Field{{Name: "Id", Type: Basic("int64")}}}
@@ -153,6 +165,15 @@ func newTagProg(id string, r *rand.Rand, coverFrom int, _ bool) *tagGen {
 			st.a.Fields = append(st.a.Fields, &Field{Name: "Nested" + name, Type: Ref(prevA)})
 			st.b.Fields = append(st.b.Fields, &Field{Name: "Nested" + name, Type: Ref(prevB)})
 			p.Feature("tagprog:nested")
+		}
+		if s == 1 {
+			st.a.Fields = append(st.a.Fields, &Field{Embedded: true, Type: Ref(stamps.a)})
+			st.b.Fields = append(st.b.Fields, &Field{Embedded: true, Type: Ref(stamps.b)})
+			p.Feature("tagprog:embedded-unexported-type")
+		} else if s == 3 {
+			st.a.Fields = append(st.a.Fields, &Field{Embedded: true, Type: Ref(metaS.a)})
+			st.b.Fields = append(st.b.Fields, &Field{Embedded: true, Type: Ref(metaS.b)})
+			p.Feature("tagprog:embedded-unexported-type-two-levels")
 		}
 		// twin only: ignored fields of types declared outside the analysed file
 		switch s % 4 {
